@@ -27,6 +27,7 @@ func c04UnitSteps(c *Ctx, r *RuleResult, lexT *types.Named) {
 		}
 		unit := map[*ssa.BasicBlock]map[string]int64{}
 		var firstStore = map[*ssa.BasicBlock]*ssa.Store{}
+		firstPos := map[*ssa.BasicBlock]ssa.Instruction{}
 		for _, fld := range []string{"end", "endRunes"} {
 			for _, s := range storesToField([]*ssa.Function{fn}, lexT, fld) {
 				bo, ok := s.store.Val.(*ssa.BinOp)
@@ -48,8 +49,35 @@ func c04UnitSteps(c *Ctx, r *RuleResult, lexT *types.Named) {
 				if firstStore[b] == nil {
 					firstStore[b] = s.store
 				}
+				if firstPos[b] == nil {
+					firstPos[b] = s.store
+				}
 			}
 		}
+		// calls of a stepping helper (a one-block function that only moves the cursors by one) step here
+		allInstrs(fn, func(in ssa.Instruction) {
+			ci, ok := in.(ssa.CallInstruction)
+			if !ok {
+				return
+			}
+			g := ci.Common().StaticCallee()
+			if g == nil || !p.inModule(g) || !isStepper(p, g, lexT) {
+				return
+			}
+			k := stepperDelta(g, lexT)
+			if k == nil {
+				return
+			}
+			b := in.Block()
+			if unit[b] == nil {
+				unit[b] = map[string]int64{}
+			}
+			unit[b]["end"] += k["end"]
+			unit[b]["endRunes"] += k["endRunes"]
+			if firstPos[b] == nil {
+				firstPos[b] = in
+			}
+		})
 		undo := map[*ssa.BasicBlock]bool{}
 		var steps []*ssa.BasicBlock
 		for b, m := range unit {
@@ -80,8 +108,13 @@ func c04UnitSteps(c *Ctx, r *RuleResult, lexT *types.Named) {
 			}
 		})
 		headers, bodies := loopsOf(fn)
+		if isStepper(p, fn, lexT) && stepperDelta(fn, lexT) != nil {
+			// the helper itself: its call sites carry the obligation
+			r.OK("stepping helper "+p.FuncName(fn), "checked at its call sites")
+			continue
+		}
 		for _, b := range steps {
-			st := firstStore[b]
+			st := firstPos[b]
 			site := fmt.Sprintf("unit step of both cursors at %s in %s", p.Pos(st.Pos()), p.FuncName(fn))
 			// nearest dominating read
 			var scr *readT
@@ -205,4 +238,35 @@ func c04EqualsAsciiParam(p *Program, fn *ssa.Function, scr ssa.Value, b *ssa.Bas
 		}
 	}
 	return false
+}
+
+// stepperDelta: the constant by which a stepping helper moves each cursor.
+func stepperDelta(g *ssa.Function, lexT *types.Named) map[string]int64 {
+	out := map[string]int64{}
+	for _, in := range g.Blocks[0].Instrs {
+		st, ok := in.(*ssa.Store)
+		if !ok {
+			continue
+		}
+		for _, fld := range []string{"end", "endRunes"} {
+			bo, ok := st.Val.(*ssa.BinOp)
+			if !ok || !isFieldLoad(bo.X, lexT, fld) {
+				continue
+			}
+			if fa, ok := st.Addr.(*ssa.FieldAddr); !ok {
+				continue
+			} else if _, f, _, _ := fieldOf(fa); f != fld {
+				continue
+			}
+			k, ok := constNum(bo.Y)
+			if !ok {
+				return nil
+			}
+			if bo.Op == token.SUB {
+				k = -k
+			}
+			out[fld] += k
+		}
+	}
+	return out
 }
